@@ -65,6 +65,8 @@ DOMS = {
 EXCLUDED = {
     "Grid": {"remove_higher_space_dimensions": "known C05 defect (minimized-generators branch) makes the receiver wrong/not OK; not an aliasing matter",
              "generalized_affine_image": "Grid has a different signature (modulus)"},
+    "BDS/Oct/Box": {"limited_*_extrapolation_assign(y, cs) with a constraint without variables in cs":
+                    "BD_Shape::get_limiting_shape (BD_Shape_templates.hh:3164) divides by the zero coefficient of such a row (crash, independent of aliasing); the harness drops such rows from cs"},
 }
 
 
